@@ -32,14 +32,14 @@ EXTENDS Integers, Sequences, SequencesExt, FiniteSets, TLC, Json
 CONSTANTS Level,       \* 1: depth-1 alphabet; 2: + reduced depth-2 alphabet; 3: + full depth-2 alphabet
           TripleLevel, \* 1: small triple alphabet; 2: large
           Shard, NShards, \* this TLC process handles the type cases with index % NShards = Shard;
-                          \* Shard = -1: no type cases, only Part 2 (Part 2 also runs when NShards = 1)
+                          \* Shard = NShards: no type cases, only Part 2 (Part 2 also runs when NShards = 1); MaxLen = 0: no Part 2
           OutFile,     \* ndjson file for the type cases ("" = no export)
           SpillFile,   \* ndjson file for the spill cases ("" = no export)
           MaxLen,      \* state machine: max number of input values
           Mems,        \* state machine: set of memMaxBytes values
           Sizes        \* state machine: set of byte sizes of non-null values
 
-Part2 == Shard < 0 \/ NShards = 1   \* this process checks the Fuser state machine and the side lemmas
+Part2 == (Shard >= NShards \/ NShards = 1) /\ MaxLen > 0   \* this process checks the Fuser state machine and the side lemmas
 
 \* ------------------------------------------------------------- type terms
 P(p)         == [k |-> "prim", p |-> p]
@@ -62,7 +62,8 @@ Under(t) == IF t.k = "named" THEN Under(t.t) ELSE t      \* zed.TypeUnder
 Sign(d) == IF d < 0 THEN -1 ELSE IF d > 0 THEN 1 ELSE 0
 
 \* zed.ID* of the primitives used here
-PrimID(p) == CASE p = "int64" -> 9 [] p = "float64" -> 16 [] p = "string" -> 25 [] p = "null" -> 29
+PrimID(p) == CASE p = "uint8" -> 0 [] p = "int64" -> 9 [] p = "time" -> 13 [] p = "float64" -> 16 [] p = "bool" -> 23
+               [] p = "string" -> 25 [] p = "ip" -> 26 [] p = "null" -> 29
 \* zed.Kind
 KindRank(k) == CASE k = "prim" -> 0 [] k = "rec" -> 1 [] k = "arr" -> 2 [] k = "set" -> 3 [] k = "map" -> 4 [] k = "union" -> 5
 \* strings.Compare on the names used here ("M" < "N" < "R" < "a" < "b" < "c")
@@ -214,11 +215,11 @@ ShaperTypeR(in, out) ==
        ELSE IF ou.k = "arr" THEN R(Arr(r.t), r.x) ELSE R(SetT(r.t), r.x)
   ELSE R(in, UnionHomeTaint(in, out))                     \* `return in, nil`: the value is left as it is
 
-\* union input: every member must shape without error; the result is out
+\* union input: every member must shape without error; what the members shape to is ignored, the result is out
 UnionMembersR(ts, out, i, acc) ==
   IF i > Len(ts) THEN acc
   ELSE LET r == ShaperTypeR(ts[i], out) IN
-       IF r.t = ERR THEN R(ERR, acc.x \cup r.x) ELSE UnionMembersR(ts, out, i + 1, R(acc.t, acc.x \cup r.x))
+       IF r.t = ERR THEN R(ERR, acc.x \cup r.x) ELSE UnionMembersR(ts, out, i + 1, acc)
 
 \* shaperFields with Cast|Fill|Order: out's fields in out's order (shaped if present in in, else filled)
 ShaperFieldsR(ifs, ofs, i, acc) ==
@@ -247,7 +248,10 @@ NewStepR(in, out) ==
   ELSE IF HasInner(iu) THEN
        IF HasInner(ou) THEN NewStepR(iu.e, ou.e) ELSE TagStepR(in, out, {})
   ELSE IF iu.k = "union" THEN
-       LET r == UnionStepR(iu.ts, out, 1, {}) IN IF r.ok THEN r ELSE TagStepR(in, out, r.x)
+       LET r == UnionStepR(iu.ts, out, 1, {}) IN
+       IF r.ok THEN r                                         \* castFromUnion
+       ELSE IF BestUnionTag(in, out) THEN OKR({})             \* break Switch: the union as a whole is a member of out
+       ELSE FAILR(r.x \cup UnionHomeTaint(in, out))
   ELSE TagStepR(in, out, {})
 \* newRecordStep: one child per out field; in fields unknown to out are dropped
 RecordStepR(ifs, ofs, i, x) ==
@@ -296,7 +300,7 @@ StepLossless(in, typ) ==
   \/ iu.k = "arr" /\ ou.k = "arr" /\ StepLossless(iu.e, ou.e)
   \/ iu.k = "set" /\ HasInner(ou) /\ StepLossless(iu.e, ou.e)
   \/ iu.k = "union" /\ \A i \in 1..Len(iu.ts) : StepLossless(iu.ts[i], typ)
-  \/ iu.k # "union" /\ BestUnionTag(in, typ)
+  \/ BestUnionTag(in, typ)
 
 \* Record field order is the only thing merge(a,b) and merge(b,a) may differ in.
 RECURSIVE NormFields(_)
@@ -351,9 +355,12 @@ CaseSeqs == {<<a>> : a \in Terms}
             \cup ({<<a, b>> : a \in Terms, b \in Terms} \ {<<a, a>> : a \in Terms})
             \cup {s \in {<<a, b, c>> : a \in T3, b \in T3, c \in T3} : s[1] # s[2] /\ s[1] # s[3] /\ s[2] # s[3]}
 \* ------------------------------------------------------ per-case prediction
+\* ConstShaper.shapers is keyed by the type ID, which a named type shares with its underlying type:
+\* a value is shaped by the shaper built for the first value with the same underlying type.
+FirstSameUnder(S, i) == CHOOSE j \in 1..i : Under(S[j]) = Under(S[i]) /\ \A h \in 1..(j - 1) : Under(S[h]) # Under(S[i])
 Case(S) ==
   LET f == FuseAllR(S)
-      outs == [i \in 1..Len(S) |-> EvalR(S[i], f.t)]
+      outs == [i \in 1..Len(S) |-> EvalR(S[FirstSameUnder(S, i)], f.t)]
       taint == f.x \cup UNION {outs[i].x : i \in 1..Len(S)}
   IN [ins      |-> S,
       fused    |-> f.t,
@@ -380,7 +387,7 @@ TaintPrecise(c) == /\ SeqHas(c.taint, "dup") => ~c.wf
 AllHold(Pr) == \A i \in 1..Len(Pr) : CaseHolds(Pr[i]) /\ TaintPrecise(Pr[i])
 
 \* Non-vacuity: untainted cases really exercise union casting, filling and container merging.
-NonVacuous(Pr) == IF Shard < 0 THEN TRUE ELSE
+NonVacuous(Pr) == IF Shard >= NShards THEN TRUE ELSE
   /\ \E i \in 1..Len(Pr) : Pr[i].taint = <<>> /\ Pr[i].fused.k = "union"
   /\ \E i \in 1..Len(Pr) : Pr[i].taint = <<>> /\ Pr[i].fused.k = "rec"
                              /\ Len(Pr[i].fused.fs) = 2 /\ Pr[i].ins[1].k = "rec" /\ Len(Pr[i].ins[1].fs) = 1
@@ -397,7 +404,8 @@ ASSUME CheckCases(Predictions)
 
 \* merge is commutative up to record field order (not needed by the property; documents the transcription)
 \* (TLC evaluates every constant definition at startup, so the shard guard is inside the definitions.)
-Commutes == ~Part2 \/ \A a \in L1, b \in L1 : NormFields(MergeR(a, b).t) = NormFields(MergeR(b, a).t)
+CommSet == T3small \cup {Rec(<<Fld("a", I64), Fld("b", Str)>>), Rec(<<Fld("b", Str), Fld("a", I64)>>), MapT(Str, I64), Uni(<<I64, RA>>)}
+Commutes == ~Part2 \/ \A a \in CommSet, b \in CommSet : NormFields(MergeR(a, b).t) = NormFields(MergeR(b, a).t)
 \* merge(t,t) = t (up to names and field order) off the defect path, except that a union with several
 \* record members collapses them by design (mergeAllRecords); on the defect path the result is ill-formed.
 RECURSIVE MultiRecUnion(_)
@@ -505,15 +513,16 @@ SchemaInv == wi > 1 => schema = FusedOf(SubSeq(input, 1, wi - 1))
 DoneInv == pc = "done" => /\ out = Expected(input)
                           /\ spillAt = SpillIndex(input, mem)
                           /\ \A i \in 1..Len(out) : out[i].typ = schema
-SpillNonVacuous == IF ~Part2 THEN TRUE ELSE
+SpillNonVacuous == IF ~Part2 \/ MaxLen < 2 THEN TRUE ELSE
                    /\ \E in \in Inputs, m \in Mems : SpillIndex(in, m) = 0 /\ Len(in) >= 2
                    /\ \E in \in Inputs, m \in Mems : SpillIndex(in, m) = 1 /\ Len(in) >= 2
                    /\ \E in \in Inputs, m \in Mems : SpillIndex(in, m) >= 2
                    /\ \E in \in Inputs : Len(in) >= 2 /\ FusedOf(in).k = "rec" /\ Len(FusedOf(in).fs) = 2
 ASSUME SpillNonVacuous
 
-SpillCases == IF ~Part2 THEN {} ELSE
-              {[input |-> in, mem |-> m, spillAt |-> SpillIndex(in, m), fused |-> FusedOf(in),
-                outs |-> [i \in 1..Len(in) |-> Expected(in)[i].typ]] : in \in {q \in Inputs : Len(q) >= 1}, m \in Mems}
+SpillCase(in, m) == LET ex == Expected(in) IN
+                    [input |-> in, mem |-> m, spillAt |-> SpillIndex(in, m), fused |-> FusedOf(in),
+                     outs |-> [i \in 1..Len(in) |-> ex[i].typ]]
+SpillCases == IF ~Part2 THEN {} ELSE {SpillCase(in, m) : in \in {q \in Inputs : Len(q) >= 1}, m \in Mems}
 ASSUME ~Part2 \/ SpillFile = "" \/ ndJsonSerialize(SpillFile, SetToSeq(SpillCases))
 =============================================================================
